@@ -338,9 +338,9 @@ def phaseInfos (cls : List Bool) (rem : List RState) (phases : List (List Obj)) 
 
 /-- `objectSetPhasesReconciler.reconcile` → `reconcilePhase`: phases in order, "break on first failing probe".
 Result: calls, error?, all phases available.  The in-process worker always succeeds here (recorder).
-`objectSetRemotePhaseReconciler.Reconcile`: NotFound → `Create(desiredObjectSetPhase)`, after which the code still
-returns the NotFound error of the Get ("getting existing ObjectSetPhase"); an existing ObjectSetPhase is never
-updated; without an Available=True condition it is reported as a failed probe. -/
+`objectSetRemotePhaseReconciler.Reconcile`: NotFound → `Create(desiredObjectSetPhase)`, then (since fix C15-a)
+the pass carries on with the new object, which has no status yet: a failed probe, no error; an existing
+ObjectSetPhase is never updated; without an Available=True condition it is reported as a failed probe. -/
 def reconcileCalls : List PInfo → List Call × Bool × Bool
   | [] => ([], false, true)
   | (i, none, objs) :: rest =>
@@ -348,7 +348,7 @@ def reconcileCalls : List PInfo → List Call × Bool × Bool
     ({ teardown := false, phase := i, objects := objs } :: cs, err, av)
   | (i, some rs, objs) :: rest =>
     match rs with
-    | .absent => ([{ teardown := false, phase := i, objects := objs, remote := true }], true, false)
+    | .absent => ([{ teardown := false, phase := i, objects := objs, remote := true }], false, false)
     | .noStatus | .unavailable => ([], false, false)
     | .available | .orphaned => reconcileCalls rest
 
